@@ -90,7 +90,16 @@ static void op_ep2_param(int argc, char **argv) {
 	fprintf(OUT, " n1="); raw_print(pn->dp, pn->used, 0);
 	fprintf(OUT, " opta=%d optb=%d ctmap=%d", ep2_curve_opt_a(), ep2_curve_opt_b(), ep2_curve_is_ctmap());
 	/* window width of the variable-base routines, comb depth of the fixed-base routines, field size (recoding capacities), GLS dispatch */
-	fprintf(OUT, " width=%d depth=%d fpbits=%d endom=%d\n", RLC_WIDTH, RLC_DEPTH, RLC_FP_BITS, ep_curve_is_endom() ? 1 : 0);
+	fprintf(OUT, " width=%d depth=%d fpbits=%d endom=%d", RLC_WIDTH, RLC_DEPTH, RLC_FP_BITS, ep_curve_is_endom() ? 1 : 0);
+	/* data of the Frobenius recodings: the constants of ep2_frb (x -> conj(x)*frb0, y -> conj(y)*frb1), the family parameter and
+	 * whether bn_rec_frb takes its BN branch */
+	{
+		bn_t u; bn_null(u); bn_new(u); fp_prime_get_par(u);
+		fprintf(OUT, " frb0="); fp2_printx(core_get()->ep2_frb[0]);
+		fprintf(OUT, " frb1="); fp2_printx(core_get()->ep2_frb[1]);
+		fprintf(OUT, " u="); raw_print(u->dp, u->used, bn_sign(u) == RLC_NEG);
+		fprintf(OUT, " bnfam=%d\n", ep_curve_is_pairf() == EP_BN ? 1 : 0);
+	}
 }
 
 /* e2b <op> <alias> <P> <Q> */
